@@ -25,8 +25,10 @@
       C17_transfer_expires_trace (any sequence of RawNode calls containing at least
       election_timeout - election_elapsed ticks ends with no transfer pending, provided no
       call asks for a transfer and no vote request claims to come from the node itself; the
-      start state must be a leader that voted for itself -- true of every leader the library
-      creates, but assumed here, not proved as an invariant).
+      start state must be a leader that voted for itself), C17_vote_invariant (that side
+      condition is an invariant of every RawNode entry point, holding trivially of any
+      follower), C17_transfer_expires_from_any_start (the two combined: no assumption on the
+      leader state beyond being reached from a state satisfying the invariant).
    4. "... or when the target leaves the voters", and on any reset:
       C17_transfer_cleared_on_reset, C17_transfer_cleared_when_target_removed,
       C17_apply_conf_change_clears_removed_target.
@@ -44,9 +46,11 @@
      (election safety + leader completeness) and a liveness argument; only its node-level
      ingredients are here (6: the target campaigns at term+1 with a real, lease-bypassing
      vote; 1: it had the leader's whole log when told to).
-   * that "leader => r_vote = r_id and r_id <> 0" is an invariant of reachable states (used
-     as a hypothesis on the FIRST state of C17_transfer_expires_trace only; it is
-     re-established by the proof for every later state of the trace).
+   * r_id <> 0 (asserted by RawNode::new, constant afterwards) is a hypothesis wherever it is
+     needed; the model has no constructor, so "holds after construction" cannot be stated.
+   * expiry when further MsgTransferLeader requests keep arriving (each NEW target restarts
+     the timer at 0, C17_transfer_timer_step; a repeated request for the same target does
+     not), and under vote requests that claim to come from the node itself.
 
    Glossary (definitions of M/RaftProofsC17.v used below)
      same_term_msg r m   m_term m = 0 \/ m_term m = r_term r   (local or same-term message)
@@ -242,6 +246,38 @@ Theorem C17_transfer_expires_trace :
     r_lead_transferee (rn_raft n') = None.
 Proof. exact transfer_expires_trace. Qed.
 Print Assumptions C17_transfer_expires_trace.
+
+(* "a leader or candidate has voted for itself" is kept by every entry point *)
+Theorem C17_vote_invariant :
+  forall n i n', rn_apply n i = Ok n' ->
+    r_id (rn_raft n') = r_id (rn_raft n) /\
+    (r_id (rn_raft n) <> 0 ->
+     ((r_state (rn_raft n) = Leader \/ r_state (rn_raft n) = Candidate) ->
+        r_vote (rn_raft n) = r_id (rn_raft n)) ->
+     ((r_state (rn_raft n') = Leader \/ r_state (rn_raft n') = Candidate) ->
+        r_vote (rn_raft n') = r_id (rn_raft n'))).
+Proof. exact rn_apply_vip. Qed.
+Print Assumptions C17_vote_invariant.
+
+Theorem C17_transfer_expires_from_any_start :
+  forall is0 is n0 n n',
+    r_id (rn_raft n0) <> 0 ->
+    ((r_state (rn_raft n0) = Leader \/ r_state (rn_raft n0) = Candidate) ->
+       r_vote (rn_raft n0) = r_id (rn_raft n0)) ->
+    rn_run n0 is0 = Ok n ->
+    is_leader (rn_raft n) = true ->
+    rn_run n is = Ok n' ->
+    Forall (fun i => match input_msg (r_id (rn_raft n)) i with
+                     | Some m => m_type m <> MsgTransferLeader /\
+                                 (m_type m = MsgRequestVote -> m_from m <> r_id (rn_raft n))
+                     | None => True
+                     end) is ->
+    0 < N.of_nat (length (filter is_tick is)) ->
+    r_election_timeout (rn_raft n) <=
+      r_election_elapsed (rn_raft n) + N.of_nat (length (filter is_tick is)) ->
+    r_lead_transferee (rn_raft n') = None.
+Proof. exact transfer_expires_from_any_start. Qed.
+Print Assumptions C17_transfer_expires_from_any_start.
 
 Example C17_ex_expires :
   (exists n', rn_run (ex_rn ex_pending3) (repeat RnTick 9) = Ok n' /\
